@@ -78,10 +78,10 @@ def reset_dest_state():
 
 def mk_config(i, fmt, srcs, sym):
     """Config i; `sym` = dict of overrides (symbolic or concrete)."""
-    master = MasterConfig("regular", "Regular", f"Font{i}.regular.ufo", (), tuple(srcs))
+    master = MasterConfig("regular", "Regular", f"Font.cfg{i}.regular.ufo", (), tuple(srcs))
     sym = dict(sym)
     sym.setdefault("glyphmap_generator", f"my.generator{i}")
-    return FontConfig()._replace(output_file=f"Font{i}.ttf", color_format=fmt, masters=(master,), source_names=tuple(sorted(p.name for p in srcs)), **sym)
+    return FontConfig()._replace(output_file=f"Font.cfg{i}.ttf", color_format=fmt, masters=(master,), source_names=tuple(sorted(p.name for p in srcs)), **sym)
 
 
 def run_driver(configs, build_dir):
